@@ -759,6 +759,9 @@ func scenariosC04() []scenario {
 	scs := []scenario{
 		{name: "x-on-2-nodes", nodes: 2, depth: d, ticks: 3, maxCAS: k, script: xAlphabet},
 		{name: "x-leaving-with-bystander", nodes: 2, depth: d, ticks: 1, maxCAS: k, script: []step{{0, opReg, "x"}, {1, opReg, "y"}, {0, opLeave, "x"}, {0, opRemove, "x"}, {1, opRemove, "x"}}},
+		// partition ring: owner and partition tombstones (the owner's lifecycler writes on node 0; removals anywhere)
+		{name: "partition-owner-removal", nodes: 2, depth: d, ticks: 1, maxCAS: k, partition: true, script: []step{{0, "add-partition", ""}, {0, "add-owner", "o"}, {0, "remove-owner", "o"}, {1, "remove-owner", "o"}}},
+		{name: "partition-removal", nodes: 2, depth: d, ticks: 1, maxCAS: k, partition: true, script: []step{{0, "add-partition", ""}, {0, "set-active", ""}, {0, "remove-partition", ""}, {1, "remove-partition", ""}, {0, "add-owner", "o"}}},
 	}
 	if ev.Thorough() {
 		scs = append(scs, scenario{name: "x-on-3-nodes", nodes: 3, depth: d, ticks: 2, maxCAS: 4, script: []step{{0, opReg, "x"}, {0, opRemove, "x"}, {1, opRemove, "x"}, {2, opRemove, "x"}}})
@@ -769,7 +772,7 @@ func scenariosC04() []scenario {
 func TestC04(t *testing.T) {
 	rep := ev.NewReport("C04", "tombstones")
 	scs := scenariosC04()
-	rep.Bound = fmt.Sprintf("%d scenarios on 2 (thorough also 3) real detached memberlist.KV nodes with the ring codec; events: ANY CAS from the scenario's alphabet (register / heartbeat / leaving / remove on given nodes; every sequence of up to "+fmt.Sprint(scs[0].maxCAS)+" of them), delivery of ANY message ever produced to any other node (any number of times, any order), full-state push to any node, clock +1s (<=2); all histories up to depth %d (the search reaches its fixpoint earlier: the bound is the number of CAS operations and ticks); retention 10s is never reached", len(scs), scs[0].depth)
+	rep.Bound = fmt.Sprintf("%d scenarios on 2 (thorough also 3) real detached memberlist.KV nodes with the ring codec and the partition-ring codec; events: ANY CAS from the scenario's alphabet (register / heartbeat / leaving / remove of an instance, add / activate / remove of a partition, add / remove of a partition owner, on given nodes; every sequence of up to "+fmt.Sprint(scs[0].maxCAS)+" of them), delivery of ANY message ever produced to any other node (any number of times, any order), full-state push to any node, clock +1s (<=2); all histories up to depth %d (the search reaches its fixpoint earlier: the bound is the number of CAS operations and ticks); retention 10s is never reached", len(scs), scs[0].depth)
 	rep.Rule = "BFS with canonical-state deduplication (stores incl. tombstones, message pool, script position, clock); in every state: each node's stored state ≡ last-writer-wins join (removal wins ties) of everything it was given, readers never see a tombstone and see exactly the non-removed entries of that join (so no earlier message resurrects a removed entry), every change incl. tombstones is re-broadcast; distinct_nontrivial = distinct states containing a tombstone"
 	deadline := ev.Deadline(8 * time.Minute)
 	for _, sc := range scs {
